@@ -115,6 +115,30 @@ class OneShot(kh.Session):
       return "unknown", None
     return r, (s.model() if r == "sat" else None)
 
+  def _solve_forked(self, fs, tactic, timeout_s):
+    """verdict only (no model), in a forked child that is killed at the deadline: nlsat does not honour z3's timeout"""
+    import select
+
+    rd, wr = os.pipe()
+    pid = os.fork()
+    if pid == 0:
+      try:
+        os.close(rd)
+        r, _ = self._solve(fs, tactic=tactic)
+        os.write(wr, r.encode())
+      finally:
+        os._exit(0)
+    os.close(wr)
+    ready, _, _ = select.select([rd], [], [], timeout_s)
+    out = os.read(rd, 64).decode() if ready else ""
+    os.close(rd)
+    try:
+      os.kill(pid, 9)
+    except OSError:
+      pass
+    os.waitpid(pid, 0)
+    return out if out in ("sat", "unsat") else "unknown"
+
   def _check(self, extra):
     import time
 
@@ -124,7 +148,7 @@ class OneShot(kh.Session):
     r, m = self._solve(ab, min(self.timeout_ms, 8000))
     if r == "unknown":
       # array reads -> fresh constants (same read, same constant): pure arithmetic for the nlsat tactic; over-approximation
-      r, m = self._solve(abstract_selects(ab), tactic="qfnra-nlsat")
+      r, m = self._solve_forked(abstract_selects(ab), "qfnra-nlsat", max(10.0, min(90.0, self.timeout_ms / 1000.0))), None
     if r != "unsat":
       r, m = self._solve(fs)  # a model (or the final word) only from the exact formula
     return r, time.time() - t0, m
@@ -452,7 +476,7 @@ def mjw_force_and_qderiv(mjm, qpos, qvel, ctrl=None, act=None):
   return Q, FD
 
 
-def replay_fd(name, tweak=None, draws=6, ctrl=None, act=None, qvel=None, tol=3e-2):
+def replay_fd(name, tweak=None, draws=6, ctrl=None, act=None, qvel=None, tol=3e-2, tag=None):
   """public-API replay: finite differences of mujoco_warp's OWN smooth force (mjw.forward at qvel +- eps) against the qDeriv that
   the real deriv_smooth_vel produced, on a pinned tiny model with re-drawn, well-conditioned coefficients"""
 
@@ -474,7 +498,7 @@ def replay_fd(name, tweak=None, draws=6, ctrl=None, act=None, qvel=None, tol=3e-
       mask = ~np.isnan(Q)
       err = np.abs(Q[mask] - FD[mask]).max()
       if err > tol * max(1.0, np.abs(FD[mask]).max()):
-        return True, _save(f"fd.{name[:40]}", {"model_xml": API_MODELS.get(name, name), "dof_damping": mjm.dof_damping, "dof_dampingpoly": mjm.dof_dampingpoly, "qvel": v, "ctrl": c, "act": a,
+        return True, _save(f"fd.{tag or name[:40]}", {"model_xml": API_MODELS.get(name, name), "dof_damping": mjm.dof_damping, "dof_dampingpoly": mjm.dof_dampingpoly, "qvel": v, "ctrl": c, "act": a,
                                              "qDeriv_from_deriv_smooth_vel": Q, "finite_difference_of_mjwarp_force": FD, "how": "mjw.forward at qvel +- 1e-2 e_k, (qfrc_passive + qfrc_actuator) differences vs (M - out)/h of mjw.deriv_smooth_vel"})
     return False, f"finite differences of the real force agree with deriv_smooth_vel on {draws} draws of model {name[:30]}"
 
@@ -669,6 +693,407 @@ def unit_damper_tendon(NT, UNR):
  return (f"damper/tendon/nt{NT}-nnz{UNR}", run)
 
 
+# ================================================================================================ actuator force law
+
+UNBATCH2 = ["actuator_dynprm", "actuator_gainprm", "actuator_biasprm", "actuator_actrange", "actuator_forcerange", "actuator_ctrlrange", "actuator_acc0", "actuator_lengthrange"]
+
+
+def goal_act_vel(spec, pre, post):
+  """replay goal (real _qderiv_actuator_passive_vel thread): vel == reference d force / d velocity evaluated in floats"""
+  from checks import act_c03 as A
+
+  w, u = spec["tid"][:2]
+  sc = lambda lab, *i: pre[lab][i] if all(j < n for j, n in zip(i, pre[lab].shape)) else 0
+  vec = lambda lab, n: [float(x) for x in pre[lab][0, u]] if pre[lab].shape[0] > 0 and pre[lab].shape[1] > u else [0.0] * n
+  dyn, gt, bt = int(sc("actuator_dyntype", u)), int(sc("actuator_gaintype", u)), int(sc("actuator_biastype", u))
+  adr, num = int(sc("actuator_actadr", u)), int(sc("actuator_actnum", u))
+  last = adr + num - 1
+  stateful = dyn != 0
+  h = float(pre["opt_timestep"][w % len(pre["opt_timestep"])]) if len(pre["opt_timestep"]) else 0.0
+  act = float(sc("act_in", w, last)) if stateful else 0.0
+  rng = vec("actuator_actrange", 2)
+  lim = bool(sc("actuator_actlimited", u))
+  if lim and rng[0] > rng[1]:
+    return True, "skipped: inverted actrange"
+  nxt = float(A.next_activation(h, dyn, vec("actuator_dynprm", 10)[0], lim, rng, act, float(sc("act_dot_in", w, last)))) if stateful else 0.0
+  e = spec["env"]
+  p = dict(stateful=stateful, gain_affine=gt == 1, bias_affine=bt == 1, gainprm2=vec("actuator_gainprm", 10)[2], biasprm2=vec("actuator_biasprm", 10)[2], ctrl=float(sc("ctrl_in", w, u)),
+           ctrllimited=bool(e.get("ctrllimited", False)), clampctrl_disabled=bool(e.get("clampctrl_disabled", False)), ctrlrange=[float(x) for x in e.get("ctrlrange", [0, 0])],
+           act=act, actearly=bool(sc("actuator_actearly", u)), forcelimited=bool(sc("actuator_forcelimited", u)), forcerange=vec("actuator_forcerange", 2), force=float(sc("actuator_force_in", w, u)))
+  want = float(ref_act_vel(p, nxt))
+  got = float(post["vel_out"][w, u])
+  return lib.approx(got, want, rtol=1e-3, atol=1e-4), f"vel[{w},{u}] = {got}, d force / d velocity (MuJoCo semantics) = {want} (dyntype {dyn}, gaintype {gt}, biastype {bt}, ctrl {p['ctrl']} limited {p['ctrllimited']} range {p['ctrlrange']}, act {act}, next {nxt}, actearly {p['actearly']}, force {p['force']} limited {p['forcelimited']} range {p['forcerange']})"
+
+
+ACT_XML = """<mujoco><option integrator="implicitfast"/><worldbody><body><joint name="j" type="hinge" axis="0 1 0" range="-1 1"/><geom size=".1" pos=".2 0 0"/></body></worldbody>
+<actuator><general joint="j" {attrs}/></actuator></mujoco>"""
+
+
+def first_reproducing(*replays):
+  def _rp(model):
+    last = (False, "no replay")
+    for r in replays:
+      last = r(model)
+      if last[0]:
+        return last
+    return last
+
+  return _rp
+
+
+def unit_act_vel(dname, gname, bname):
+  def run(ctx):
+    from checks import act_c03 as A
+    from mujoco_warp._src import derivative, forward, support
+    from mujoco_warp._src import util_misc as U
+
+    DYN, GAIN, BIAS = A.DYN, A.GAIN, A.BIAS
+    dyn, gain, bias = DYN[dname], GAIN[gname], BIAS[bname]
+    kf, kd = forward._actuator_force, derivative._qderiv_actuator_passive_vel
+    ctx.encode(kf, kd, support.next_act)
+    muscle = gname == "muscle" or bname == "muscle"
+    if muscle:
+      ctx.encode(U.muscle_gain, U.muscle_bias, U.muscle_gain_length)
+    ctx.bound(shape_cap=4, note="one generic thread of _actuator_force and of _qderiv_actuator_passive_vel over the same symbolic arrays; batched model fields with first dimension 1 (world indexing is C09); actnum <= cap")
+    ctx.assume("limited ranges satisfy lo <= hi", "stateless actuator (dyntype none) has actadr = -1; stateful ones actadr >= 0, actnum >= 1, na > 0 (MuJoCo model invariant)",
+               "Data.actuator_force / Data.act_dot hold what _actuator_force wrote for the same state (fwd_actuation ran; tendon total-force scaling outside)",
+               "the raw force is not exactly on a forcerange bound (the clamp is not differentiable there)", "thread's own accesses in bounds (C17)")
+    AI = A.make_interp()
+    fixed = {"actuator_dyntype": dyn, "actuator_gaintype": gain, "actuator_biastype": bias}
+    w, u = z3.Int("tid0"), z3.Int("tid1")
+    ktf = lib.kernel_thread(kf, shapes={l: [1, None] for l in UNBATCH2}, tid=(w, u), cap=4, interp_kw={"interp": AI(fixed=fixed)})
+    ktd = lib.kernel_thread(kd, shapes={l: [1, None] for l in UNBATCH2 if l not in ("actuator_ctrlrange", "actuator_acc0", "actuator_lengthrange")}, tid=(w, u), cap=4, interp_kw={"interp": AI(fixed=fixed)})
+    P = ktf.pre
+    adr, num = P("actuator_actadr", u), P("actuator_actnum", u)
+    last = adr + num - 1
+    na = ktf.args["na"]
+    vel_read = z3.simplify(P("actuator_velocity_in", w, u))
+    F = z3.simplify(DF.push_selects(zr(ktf.post("actuator_force_out", w, u))))
+    V = z3.Real("VEL")
+    Fv = z3.substitute(F, (vel_read, V))
+    if DF.reads_of(Fv, ktf.cell("actuator_velocity_in").a0[0]):
+      ctx.error("harness: velocity read not abstracted")
+    dF = z3.substitute(DF.diff(Fv, V), (V, vel_read))
+    smooth_pt = z3.substitute(DF.off_kinks(Fv, V), (V, vel_read))
+    inv = (adr == -1) if dyn == DYN["none"] else z3.And(adr >= 0, num >= 1, na > 0)
+    rngs = [ktf.prev(r, 0, u) for r in ("actuator_ctrlrange", "actuator_actrange", "actuator_forcerange")]
+    bg = ktf.bg + ktd.bg + [inv] + [r.c[0] <= r.c[1] for r in rngs]
+    bg += [P("actuator_dyntype", u) == dyn, P("actuator_gaintype", u) == gain, P("actuator_biastype", u) == bias]
+    # Data fields produced by the force kernel and consumed by the derivative kernel
+    bg.append(ktd.pre("actuator_force_in", w, u) == F)
+    if dyn != DYN["none"]:
+      bg.append(ktd.pre("act_dot_in", w, last) == z3.simplify(DF.push_selects(zr(ktf.post("act_dot_out", w, last)))))
+    sess = oneshot(ctx, bg)
+    vel = ktd.post("vel_out", w, u)
+    ctrllim, noclamp = P("actuator_ctrllimited", u), ktf.args["dsbl_clampctrl"] != 0
+    ctrl = P("ctrl_in", w, u)
+    crange = rngs[0].c
+    inside = Or(Not(ctrllim), noclamp, And(ctrl >= crange[0], ctrl <= crange[1]))
+    ctx.reach(sess, "twin:smooth-point", And(smooth_pt, P("actuator_forcelimited", u)))
+    names = {"w": w, "u": u, "na": na, "actadr": adr, "actnum": num, "actearly": P("actuator_actearly", u), "actlimited": P("actuator_actlimited", u), "ctrllimited": ctrllim, "clampctrl_disabled": noclamp,
+             "forcelimited": P("actuator_forcelimited", u), "ctrl": ctrl, "velocity": vel_read, "gainprm2": ktf.prev("actuator_gainprm", 0, u).c[2], "biasprm2": ktf.prev("actuator_biasprm", 0, u).c[2]}
+    tag = f"{dname}-{gname}-{bname}"
+    env = {"randomize_floats": 0, "ctrllimited": ctrllim, "clampctrl_disabled": noclamp, "ctrlrange": [crange[0], crange[1]]}
+    rpk = lib.make_replay(ctx, ktd, "mujoco_warp._src.derivative:_qderiv_actuator_passive_vel", f"vel.{tag}", "goal", goal="checks.c27:goal_act_vel", env=env)
+    attrs = {"none": "", "integrator": 'dyntype="integrator"', "filter": 'dyntype="filter" dynprm="0.05"', "filterexact": 'dyntype="filterexact" dynprm="0.05"', "muscle": 'dyntype="muscle"'}[dname]
+    attrs += {"fixed": ' gainprm="1.5"', "affine": ' gaintype="affine" gainprm="1.5 0.3 0.4"', "muscle": ' gaintype="muscle" gainprm="0.75 1.05 100 200 0.5 1.6 1.5 1.3 1.2" lengthrange="-1 1"'}[gname]
+    attrs += {"none": "", "affine": ' biastype="affine" biasprm="0.2 -0.5 -0.3"', "muscle": ' biastype="muscle" biasprm="0.75 1.05 100 200 0.5 1.6 1.5 1.3 1.2"'}[bname]
+    api = lambda extra="", ctrl=0.4: replay_fd(ACT_XML.format(attrs=attrs + extra), ctrl=[ctrl], act=(None if dyn == DYN["none"] else [0.6]), qvel=[0.3], draws=1, tag=f"actuator.{tag}")
+    both = first_reproducing(rpk, api(), api(' actearly="true"'))
+    if muscle:
+      ctx.prove(sess, "vel/muscle-velocity-slope", vel == dF, And(smooth_pt, inside), names=names, replay=api(),
+                desc=f"_qderiv_actuator_passive_vel ({tag}): the velocity slope of the muscle force-length-velocity gain is missing (vel ignores GainType.MUSCLE); MuJoCo's mjd_smooth_vel includes it")
+      return
+    ctx.prove(sess, "vel==dforce/dvelocity", vel == dF, And(smooth_pt, inside), names=names, replay=both, desc=f"_qderiv_actuator_passive_vel ({tag}): vel is not the derivative of the force computed by _actuator_force w.r.t. actuator_velocity (gainprm[2] * [ctrl | act | next act] + biasprm[2]; 0 when clamped by forcerange)")
+    if dyn == DYN["none"] and gname == "affine":
+      ctx.prove(sess, "vel/ctrl-outside-ctrlrange", vel == dF, And(smooth_pt, Not(inside)), names=names, replay=first_reproducing(rpk, api(' ctrllimited="true" ctrlrange="-1 1"', ctrl=3.0)),
+                desc=f"_qderiv_actuator_passive_vel ({tag}): ctrl outside ctrlrange with clamping active: the force law (and MuJoCo's derivative) use the clamped ctrl, vel multiplies gainprm[2] by the raw ctrl")
+    w2, u2 = z3.Int("w2"), z3.Int("u2")
+    ctx.prove(sess, "frame/own-entry", And(ktd.written("vel_out", w, u), Implies(ktd.written("vel_out", w2, u2), And(w2 == w, u2 == u))), names=dict(names, w2=w2, u2=u2), replay=rpk, desc="_qderiv_actuator_passive_vel: vel[w, actuator] not written on every path / another entry written")
+
+  return (f"actuator/vel/{dname}-{gname}-{bname}", run)
+
+
+# ================================================================================================ actuator J^T vel J accumulation
+
+
+def goal_jtj(spec, pre, post):
+  """replay goal (real _qderiv_actuator_passive_actuation_sparse thread): increments of qDeriv == vel * moment_r * moment_c at every
+  stored pair (r, c) of the M structure"""
+  w, a = spec["tid"][:2]
+  E = pre["M_elemid"]
+  nv = E.shape[0]
+  n, adr = int(pre["moment_rownnz_in"][w, a]), int(pre["moment_rowadr_in"][w, a])
+  cols = [int(pre["moment_colind_in"][w, adr + k]) for k in range(n)]
+  if any(cols[k] >= cols[k + 1] for k in range(n - 1)):
+    return True, "skipped: moment row not strictly ascending (outside the precondition)"
+  stored = [(r, c, int(E[r, c])) for r in range(nv) for c in range(E.shape[1]) if E[r, c] >= 0]
+  if len({e for _, _, e in stored}) != len(stored) or any(r < c for r, c, _ in stored):
+    return True, "skipped: M_elemid not injective / not lower triangular (outside the precondition)"
+  mom = np.zeros(max(nv, max(cols, default=0) + 1))
+  for k in range(n):
+    mom[cols[k]] = float(pre["actuator_moment_in"][w, adr + k])
+  vel = float(pre["vel_in"][w, a])
+  delta = post["qDeriv_out"].astype(float) - pre["qDeriv_out"].astype(float)
+  want = np.zeros_like(delta)
+  for r, c, e in stored:
+    if e < want.shape[1]:
+      want[w, e] = vel * mom[r] * mom[c]
+  ok = bool(np.allclose(delta, want, rtol=1e-3, atol=1e-4))
+  return ok, f"increments of qDeriv {delta.tolist()} expected vel * moment_r * moment_c at M_elemid[r, c]: {want.tolist()} (row columns {cols}, vel {vel})"
+
+
+def unit_jtj(ctx):
+  from mujoco_warp._src import derivative
+
+  UNR = 3 if ctx.tier == "quick" else 4
+  k = derivative._qderiv_actuator_passive_actuation_sparse
+  ctx.encode(k)
+  ctx.bound(unroll=UNR, shape_cap=8, note=f"moment rows of at most {UNR} non-zeros; generic stored pair (r, c); exact reals")
+  ctx.assume("thread's own accesses in bounds (C17)", "moment rows have strictly ascending column indices (MuJoCo CSR invariant; checked on the reference model)",
+             "M_elemid is injective on stored pairs and stores only r >= c (put_model table, validated against MuJoCo's CSR M in unit reference)")
+  kt = lib.kernel_thread(k, unroll=UNR, cap=8)
+  w, a = kt.tid
+  P = kt.pre
+  n, adr = P("moment_rownnz_in", w, a), P("moment_rowadr_in", w, a)
+  cols = [P("moment_colind_in", w, adr + i) for i in range(UNR)]
+  ms = [P("actuator_moment_in", w, adr + i) for i in range(UNR)]
+  vel = P("vel_in", w, a)
+  r, c = z3.Int("r"), z3.Int("c")
+  e = P("M_elemid", r, c)
+  E = lambda i, j: P("M_elemid", i, j)
+  pre = [z3.Implies(i + 1 < n, cols[i] < cols[i + 1]) for i in range(UNR - 1)]
+  pre += [z3.Implies(z3.And(i < n, j < n, E(cols[i], cols[j]) == e, e >= 0), z3.And(cols[i] == r, cols[j] == c)) for i in range(UNR) for j in range(UNR)]
+  pre += [z3.Implies(E(cols[i], cols[j]) >= 0, cols[i] >= cols[j]) for i in range(UNR) for j in range(UNR)] + [z3.Implies(e >= 0, r >= c)]
+  sess = oneshot(ctx, kt.bg + pre)
+  mom = lambda x: sum([z3.If(z3.And(i < n, cols[i] == x), ms[i], 0) for i in range(UNR)], z3.RealVal(0))
+  ctx.reach(sess, "twin:off-diagonal-pair-of-a-full-row", And(n == UNR, e >= 0, cols[0] == c, cols[UNR - 1] == r, vel != 0))
+  names = {"w": w, "act": a, "r": r, "c": c, "elem": e, "rownnz": n, "rowadr": adr}
+  rp = lib.make_replay(ctx, kt, "mujoco_warp._src.derivative:_qderiv_actuator_passive_actuation_sparse", "jtj", "goal", goal="checks.c27:goal_jtj", env={"randomize_floats": 3})
+  w2 = z3.Int("w2")
+  tot = kt.atomic_total("qDeriv_out", w2, e)
+  ctx.prove(sess, "increment==vel*moment_r*moment_c", tot == z3.If(w2 == w, vel * mom(r) * mom(c), 0), e >= 0, names=dict(names, w2=w2), replay=rp,
+            desc="_qderiv_actuator_passive_actuation_sparse: the thread's contribution to qDeriv[M_elemid[r, c]] is not vel * moment[r] * moment[c]")
+  ctx.prove(sess, "no-plain-store", Not(kt.written("qDeriv_out", w2, z3.Int("a2"), kinds=("W",))), names=names, replay=rp, desc="_qderiv_actuator_passive_actuation_sparse stores non-atomically into the shared qDeriv")
+
+
+# ================================================================================================ H mode: deriv_smooth_vel
+
+H_XML = """<mujoco><option integrator="implicitfast" timestep="0.004"><flag {flags}/></option><worldbody>
+<body><joint name="j0" type="hinge" axis="0 1 0" damping="0.3"/><geom size=".1" pos=".1 0 0"/>
+ <body pos=".3 0 0"><joint name="j1" type="slide" damping=".2"/><geom size=".1"/></body>
+ <body pos="0 .3 0"><joint name="j2" type="hinge" axis="1 0 0" damping=".2"/><geom size=".1" pos="0 .1 0"/></body></body>
+</worldbody>
+<tendon><fixed name="t0" damping="0.5"><joint joint="j0" coef="1.5"/><joint joint="j1" coef="-0.5"/></fixed>
+<fixed name="t1" damping="0.25"><joint joint="j1" coef="2"/><joint joint="j2" coef="0.7"/></fixed></tendon>
+<actuator><general joint="j0" gaintype="affine" gainprm="1 .5 .2" biastype="affine" biasprm=".1 .2 -.3" forcelimited="true" forcerange="-5 5"/>
+<general tendon="t0" dyntype="filter" dynprm=".1" actearly="true" gaintype="affine" gainprm="1 .5 .2" biastype="affine" biasprm=".1 .2 -.3"/>
+<general tendon="t1" dyntype="integrator" gaintype="affine" gainprm="1 0 .7"/></actuator>
+</mujoco>"""
+H_FLAGS = {"default": "", "nodamper": 'damper="disable"', "noactuation": 'actuation="disable"', "neither": 'damper="disable" actuation="disable"'}
+HSYM_M = {"dof_damping", "dof_dampingpoly", "tendon_damping", "tendon_dampingpoly", "actuator_gainprm", "actuator_biasprm", "actuator_forcerange", "actuator_actrange"}
+HSYM_D = {"qvel", "M", "actuator_moment", "ten_J", "ten_velocity", "act", "ctrl", "act_dot", "actuator_force"}
+
+
+def _hbuild(variant, nworld=2):
+  import mujoco
+  import warp as wp
+
+  import mujoco_warp as mjw
+
+  mjm = mujoco.MjModel.from_xml_string(H_XML.format(flags=H_FLAGS[variant]))
+  mjd = mujoco.MjData(mjm)
+  mjd.qpos[:] = 0.1
+  mjd.qvel[:] = [0.3, -0.2, 0.5]
+  mujoco.mj_forward(mjm, mjd)
+  m = mjw.put_model(mjm)
+  d = mjw.make_data(mjm, nworld=nworld)
+  d.qpos.assign(np.tile(mjd.qpos, (nworld, 1)).astype(np.float32))
+  d.qvel.assign(np.tile(mjd.qvel, (nworld, 1)).astype(np.float32))
+  mjw.forward(m, d)
+  # per-world batched damping coefficients (batch size nworld), tendon coefficients unbatched
+  m.dof_damping = wp.array(np.tile(mjm.dof_damping, (nworld, 1)).astype(np.float32), dtype=float)
+  m.dof_dampingpoly = wp.array(np.tile(mjm.dof_dampingpoly, (nworld, 1, 1)).astype(np.float32), dtype=wp.vec2)
+  return mjm, m, d
+
+
+def unit_assemble(variant):
+  def run(ctx):
+    import mujoco
+    import warp as wp
+    from checks import act_c03 as A
+    from mujoco_warp._src import derivative
+
+    S, D, AC = bits()
+    nworld = 2
+    mjm, m, d = _hbuild(variant, nworld)
+    nv, nu, nt, nC = int(mjm.nv), int(mjm.nu), int(mjm.ntendon), int(mjm.nC)
+    ctx.encode(derivative.deriv_smooth_vel)
+    ctx.bound(model="3-dof branched chain, 2 fixed tendons, 3 affine actuators (stateless with forcerange, filter+actearly on a tendon, integrator)", nworld=nworld, nv=nv, nu=nu, ntendon=nt, flags=variant,
+              note="model structure concrete; limit / actearly flags as in the model (symbolic in actuator/vel/*); every float input (qvel, M, moments, tendon Jacobian / velocity, ctrl, act, act_dot, actuator_force, damping and actuator coefficients, limit ranges, stale contents of `out`) symbolic; dof_damping batched per world; time step concrete (symbolic in the per-kernel units)")
+    ctx.assume("forcerange / actrange lo <= hi", "actuator_force is not exactly on a forcerange bound is NOT needed here (the reference uses MuJoCo's <= / >= test)")
+    sym_m = lambda n: (n[2:] if n.startswith("m.") else n) in HSYM_M
+    sym_d = lambda n: (n[2:] if n.startswith("d.") else n) in HSYM_D
+    m2 = host.shim_dataclass(m, "m.", symbolic=sym_m)
+    d2 = host.shim_dataclass(d, "d.", symbolic=sym_d)
+    ma, da = host.arrays_of(m2), host.arrays_of(d2)
+    out = host.sym_array("out", (nworld, nC), wp.float32)
+    saved = host.Interp
+    host.Interp = A.make_interp()
+    try:
+      with host.HostRun(mode="exec") as hr:
+        derivative.deriv_smooth_vel(m2, d2, out)
+    finally:
+      host.Interp = saved
+    for ev in hr.events:
+      if ev.kind == "launch":
+        ctx.encode(ev.kernel)
+    ctx.notes.append(f"{sum(1 for e in hr.events if e.kind == 'launch')} launches, {hr.nthreads} threads interpreted: {sorted({e.kernel.key for e in hr.events if e.kind == 'launch'})}")
+
+    def M_(n, w, i, k=0):
+      c = ma[n].ref.cell
+      if c.ndim == 2:
+        return c.d0[k][c.flat([w % c.shape[0], i])]
+      return c.d0[k][(w % c.shape[0]) if n.startswith("opt.") else i]
+
+    def D_(n, w, i):
+      c = da[n].ref.cell
+      return c.d0[0][c.flat([w, i])]
+
+    flags = int(mjm.opt.disableflags)
+    damper_on, act_on = not (flags & D), not (flags & AC)
+    rownnz, rowadr, colind = d.moment_rownnz.numpy(), d.moment_rowadr.numpy(), d.moment_colind.numpy()
+    pre = [core.zbool(a) for a in hr.assumes]
+    for w in range(nworld):
+      for a in range(nu):
+        pre.append(core.zbool(cmp("<=", M_("actuator_forcerange", w, a, 0), M_("actuator_forcerange", w, a, 1))))
+        pre.append(core.zbool(cmp("<=", M_("actuator_actrange", w, a, 0), M_("actuator_actrange", w, a, 1))))
+    sess = oneshot(ctx, pre)
+    ctx.reach(sess, "twin:pre-state", True)
+    oc = out.ref.cell
+    rp = replay_assemble(ctx, variant, ma, da, out)
+    for w in range(nworld):
+      h = M_("opt.timestep", w, 0)
+      # actuator velocity gains (reference), moments as dense rows
+      vels, moms = [], []
+      for a in range(nu):
+        adr, num = int(mjm.actuator_actadr[a]), int(mjm.actuator_actnum[a])
+        last = adr + num - 1
+        dyn = int(mjm.actuator_dyntype[a])
+        stateful = dyn != 0
+        act = D_("act", w, last) if stateful else 0.0
+        nxt = A.next_activation(h, dyn, float(m.actuator_dynprm.numpy()[0, a][0]), M_("actuator_actlimited", w, a), [M_("actuator_actrange", w, a, 0), M_("actuator_actrange", w, a, 1)], act, D_("act_dot", w, last)) if stateful else 0.0
+        p = dict(stateful=stateful, gain_affine=int(mjm.actuator_gaintype[a]) == 1, bias_affine=int(mjm.actuator_biastype[a]) == 1, gainprm2=M_("actuator_gainprm", w, a, 2), biasprm2=M_("actuator_biasprm", w, a, 2),
+                 ctrl=D_("ctrl", w, a), ctrllimited=False, clampctrl_disabled=False, ctrlrange=[0.0, 0.0], act=act, actearly=M_("actuator_actearly", w, a), forcelimited=M_("actuator_forcelimited", w, a),
+                 forcerange=[M_("actuator_forcerange", w, a, 0), M_("actuator_forcerange", w, a, 1)], force=D_("actuator_force", w, a))
+        vels.append(ref_act_vel(p, nxt))
+        row = [0.0] * nv
+        for k in range(int(rownnz[w, a])):
+          row[int(colind[w, rowadr[w, a] + k])] = D_("actuator_moment", w, int(rowadr[w, a]) + k)
+        moms.append(row)
+      J = [[0.0] * nv for _ in range(nt)]
+      for t in range(nt):
+        for k in range(int(mjm.ten_J_rownnz[t])):
+          sp = int(mjm.ten_J_rowadr[t]) + k
+          J[t][int(mjm.ten_J_colind[sp])] = D_("ten_J", w, sp)
+      for i in range(nv):
+        for k in range(int(mjm.M_rownnz[i])):
+          madr = int(mjm.M_rowadr[i]) + k
+          j = int(mjm.M_colind[madr])
+          q = 0.0
+          if act_on:
+            for a in range(nu):
+              q = arith("+", q, arith("*", arith("*", moms[a][i], vels[a]), moms[a][j]))
+          if damper_on:
+            if i == j:
+              q = arith("-", q, ref_poly_deriv(M_("dof_damping", w, i), [M_("dof_dampingpoly", w, i, 0), M_("dof_dampingpoly", w, i, 1)], D_("qvel", w, i)))
+            for t in range(nt):
+              bp = ref_poly_deriv(M_("tendon_damping", w, t), [M_("tendon_dampingpoly", w, t, 0), M_("tendon_dampingpoly", w, t, 1)], D_("ten_velocity", w, t))
+              q = arith("-", q, arith("*", arith("*", J[t][i], J[t][j]), bp))
+          want = arith("-", D_("M", w, madr), arith("*", h, q))
+          got = oc.d[0][oc.flat([w, madr])]
+          ctx.prove(sess, f"out[{w}][M({i},{j})]", zr(got) == zr(want), names={"force0": D_("actuator_force", w, 0)}, replay=rp,
+                    desc=f"deriv_smooth_vel ({variant}): entry ({i},{j}) of world {w} is not M - h (sum_a moment_a[i] vel_a moment_a[j] - [i==j] d'(qvel_i) - sum_t J_ti d'(v_t) J_tj) with the terms selected by the disable flags")
+
+  return (f"assemble/{variant}", run)
+
+
+def replay_assemble(ctx, variant, ma, da, out):
+  """the real deriv_smooth_vel on the solver's inputs vs the float evaluation of the reference (dense)"""
+
+  def _rp(model):
+    import mujoco
+    import warp as wp
+
+    import mujoco_warp as mjw
+
+    S, D, AC = bits()
+    mjm, m, d = _hbuild(variant, 2)
+    g = lambda x: float(np.clip(kh.mval(model, x), -50, 50)) if core.is_sym(x) else float(x)
+
+    def fill(real, cell, boolean=False):
+      a = real.numpy()
+      flat = np.array([[bool(kh.mval(model, cell.d0[k][i])) if boolean and core.is_sym(cell.d0[k][i]) else g(cell.d0[k][i]) for k in range(cell.ncomp)] for i in range(cell.size)])
+      real.assign(flat.reshape(a.shape).astype(a.dtype))
+
+    for n in HSYM_M:
+      obj, attr = (m.opt, n[4:]) if n.startswith("opt.") else (m, n)
+      fill(getattr(obj, attr), ma[n].ref.cell, boolean=ma[n].ref.cell.dtype == "bool")
+    for n in ("actuator_forcerange", "actuator_actrange"):
+      a = getattr(m, n).numpy()
+      getattr(m, n).assign(np.sort(a, axis=-1))
+    for n in HSYM_D:
+      fill(getattr(d, n), da[n].ref.cell)
+    o = wp.array(np.array([[g(x) for x in out.ref.cell.d0[0]]], dtype=np.float32).reshape(2, -1), dtype=float)
+    mjw.deriv_smooth_vel(m, d, o)
+    got = o.numpy()
+    # reference in floats
+    nv, nu, nt = mjm.nv, mjm.nu, mjm.ntendon
+    flags = int(mjm.opt.disableflags)
+    E = m.M_elemid.numpy()
+    bad = []
+    from checks import act_c03 as A
+
+    for w in range(2):
+      hh = float(m.opt.timestep.numpy()[w % m.opt.timestep.shape[0]])
+      Q = np.zeros((nv, nv))
+      if not (flags & AC):
+        rn, ra, ci, mo = d.moment_rownnz.numpy()[w], d.moment_rowadr.numpy()[w], d.moment_colind.numpy()[w], d.actuator_moment.numpy()[w]
+        for a in range(nu):
+          row = np.zeros(nv)
+          for k in range(rn[a]):
+            row[ci[ra[a] + k]] = mo[ra[a] + k]
+          adr, num = int(mjm.actuator_actadr[a]), int(mjm.actuator_actnum[a])
+          dyn = int(mjm.actuator_dyntype[a])
+          last = adr + num - 1
+          act = float(d.act.numpy()[w, last]) if dyn else 0.0
+          rng = [float(x) for x in m.actuator_actrange.numpy()[0, a]]
+          nxt = float(A.next_activation(hh, dyn, float(m.actuator_dynprm.numpy()[0, a][0]), bool(m.actuator_actlimited.numpy()[a]), rng, act, float(d.act_dot.numpy()[w, last]))) if dyn else 0.0
+          p = dict(stateful=bool(dyn), gain_affine=int(mjm.actuator_gaintype[a]) == 1, bias_affine=int(mjm.actuator_biastype[a]) == 1, gainprm2=float(m.actuator_gainprm.numpy()[0, a][2]), biasprm2=float(m.actuator_biasprm.numpy()[0, a][2]),
+                   ctrl=float(d.ctrl.numpy()[w, a]), ctrllimited=False, clampctrl_disabled=False, ctrlrange=[0, 0], act=act, actearly=bool(m.actuator_actearly.numpy()[a]), forcelimited=bool(m.actuator_forcelimited.numpy()[a]),
+                   forcerange=[float(x) for x in m.actuator_forcerange.numpy()[0, a]], force=float(d.actuator_force.numpy()[w, a]))
+          Q += float(ref_act_vel(p, nxt)) * np.outer(row, row)
+      if not (flags & D):
+        dd, dp = m.dof_damping.numpy(), m.dof_dampingpoly.numpy()
+        for i in range(nv):
+          Q[i, i] -= float(ref_poly_deriv(float(dd[w % dd.shape[0], i]), [float(x) for x in dp[w % dp.shape[0], i]], float(d.qvel.numpy()[w, i])))
+        td, tp = m.tendon_damping.numpy(), m.tendon_dampingpoly.numpy()
+        for t in range(nt):
+          Jt = np.zeros(nv)
+          for k in range(mjm.ten_J_rownnz[t]):
+            Jt[mjm.ten_J_colind[mjm.ten_J_rowadr[t] + k]] = d.ten_J.numpy()[w, mjm.ten_J_rowadr[t] + k]
+          Q -= float(ref_poly_deriv(float(td[w % td.shape[0], t]), [float(x) for x in tp[w % tp.shape[0], t]], float(d.ten_velocity.numpy()[w, t]))) * np.outer(Jt, Jt)
+      for i in range(nv):
+        for j in range(nv):
+          if E[i, j] >= 0:
+            want = float(d.M.numpy()[w, E[i, j]]) - hh * Q[i, j]
+            if not lib.approx(got[w, E[i, j]], want, rtol=2e-3, atol=2e-3):
+              bad.append(dict(world=w, i=i, j=j, deriv_smooth_vel=float(got[w, E[i, j]]), reference=want))
+    return bool(bad), _save(f"assemble.{variant}", {"variant": variant, "mismatches": bad[:10], "how": "real mjw.deriv_smooth_vel on the solver's inputs vs the reference formula in floats"})
+
+  return _rp
+
+
 def main(tier, seed, only=None):
   import mujoco_warp  # noqa: loaded once before the units fork
   from mujoco_warp._src import derivative, forward, passive, smooth  # noqa
@@ -676,6 +1101,9 @@ def main(tier, seed, only=None):
   units = [("reference", unit_reference), ("lemma/poly", unit_lemma_poly)]
   units += [unit_damper_dof(jt, off) for jt in (SLIDE, BALL, FREE) for off in (False, True)]
   units += [unit_damper_tendon(1, 2)] if tier != "thorough" else [unit_damper_tendon(1, 3), unit_damper_tendon(2, 1)]
+  units += [unit_act_vel(d, g, b) for d in ("none", "integrator", "filter", "filterexact") for g in ("fixed", "affine") for b in ("none", "affine")]
+  units += [unit_act_vel("muscle", "muscle", "muscle"), ("actuator/JtJ", unit_jtj)]
+  units += [unit_assemble(v) for v in H_FLAGS]
   if only:
     units = [u for u in units if any(o in u[0] for o in only)]
   return report.run_check(PID, units, tier, seed)
